@@ -8,6 +8,13 @@ ROOT = os.path.dirname(os.path.dirname(os.path.abspath(__file__)))
 
 # id -> (category, technique, text, note, design_ref)
 CHECKS = {
+    "C07": (
+        "exploration",
+        "controlled thread scheduler driven by sys.monitoring LINE events in the library's shared-state modules (exactly one task runs; schedules replay), exhaustive single pre-emptions + sampled double pre-emptions + PCT random priorities + free-running 1us-switch stress; solo-result oracle, container census after join, LRU invariant walker, owner-tagged ids",
+        "Workloads of 2-3 real threads (provider+consumer renders from generated programs, a failing render inside a provider, renders compiling fresh templates through a template cache of size 1-2, first access of a fresh class's media/js/css/template, first compilation of a component tag): quick ~16k schedules (every single pre-emption point of 30 two-task workloads, 600 PCT schedules of 16 three-task workloads, 6 stress runs), thorough ~1.5M. Each task's output or exception class must equal its solo result, the registries found by the census must hold no residue after join, the template LRU must satisfy its structural invariant. Held on the schedules executed; not a proof of race freedom.",
+        "Yield points are statement starts inside django_components modules; the library's own locks are replaced by tracked locks so that the scheduler never pre-empts inside them; interleavings inside Django and inside single statements are not explored.",
+        "DESIGN.md §2 C07, §1 E2",
+    ),
     "C10": (
         "exploration",
         "(a) differential monitor: patched Template.compile_nodelist/render vs the saved original Django methods on the same generated stock template families; (b) metamorphic monitor: extends/block/include family of a component program vs the hand-flattened program",
